@@ -268,6 +268,9 @@ def run(ctx, params):
         root = gen.valid_tree(rng.choice(["eml", "eml", "dataset", "dataset", "dataTable", "project", "methods"]), rng, rng.choice([20, 60, 150]))
         tweak(rng, root, ctx)
         ctx.case(judge, ctx, root, "valid+threshold-tweaks", True)
+        if i % 9 == 0:
+            plain = snapshot.to_plain(root)
+            ctx.later(lambda c, p=plain: judge(c, snapshot.from_plain(Node, p), "valid+threshold-tweaks (judged again at the end)", True))
         if i % 199 == 0:
             w = []
             try:
